@@ -169,11 +169,41 @@ pub fn bspldnev_single_dual2(
 
 /// A piecewise polynomial spline of given order and knot sequence.
 #[derive(Clone, Debug, Deserialize, Serialize)]
+#[serde(try_from = "PPSplineDataModel<T>")]
+#[serde(bound(deserialize = "T: Deserialize<'de>"))]
 pub struct PPSpline<T> {
     k: usize,
     t: Vec<f64>,
     c: Option<Array1<T>>,
     n: usize,
+}
+
+/// Serialized form of a [PPSpline]: validated when loaded as `PPSpline::new` validates its inputs.
+#[derive(Deserialize)]
+#[serde(bound(deserialize = "T: Deserialize<'de>"))]
+struct PPSplineDataModel<T> {
+    k: usize,
+    t: Vec<f64>,
+    c: Option<Array1<T>>,
+    n: usize,
+}
+
+impl<T> std::convert::TryFrom<PPSplineDataModel<T>> for PPSpline<T> {
+    type Error = String;
+
+    fn try_from(model: PPSplineDataModel<T>) -> Result<Self, Self::Error> {
+        let PPSplineDataModel { k, t, c, n } = model;
+        if t.len() <= 1 {
+            return Err("`t` must contain at least two knots.".to_string());
+        }
+        if !zip(&t[1..], &t[..(t.len() - 1)]).all(|(a, b)| a >= b) {
+            return Err("`t` must be non-decreasing.".to_string());
+        }
+        if k > t.len() || n != t.len() - k {
+            return Err("`n` must equal the number of knots less `k`.".to_string());
+        }
+        Ok(Self { k, t, c, n })
+    }
 }
 
 impl<T> PPSpline<T> {
